@@ -50,24 +50,26 @@ fn is_symbol_char<'a>(i: OffsetStrIter<'a>) -> Result<OffsetStrIter<'a>, u8> {
 fn escapequoted<'a>(input: OffsetStrIter<'a>) -> Result<OffsetStrIter<'a>, String> {
     // loop until we find a " that is not preceded by \.
     // Collapse all \<char> to just char  for escaping exept for \n \r \t and \@.
-    let mut frag = String::new();
+    // The input is iterated byte-wise so we accumulate bytes and decode them as
+    // utf-8 at the end to preserve multi-byte characters.
+    let mut frag: Vec<u8> = Vec::new();
     let mut escape = false;
     let mut _input = input.clone();
     while let Some(&c) = _input.next() {
         if escape {
             match c as char {
                 'n' => {
-                    frag.push('\n');
+                    frag.push(b'\n');
                     escape = false;
                     continue;
                 }
                 'r' => {
-                    frag.push('\r');
+                    frag.push(b'\r');
                     escape = false;
                     continue;
                 }
                 't' => {
-                    frag.push('\t');
+                    frag.push(b'\t');
                     escape = false;
                     continue;
                 }
@@ -82,10 +84,10 @@ fn escapequoted<'a>(input: OffsetStrIter<'a>) -> Result<OffsetStrIter<'a>, Strin
         } else if c == b'"' && !escape {
             // Bail if this is an unescaped "
             // we exit here.
-            return Result::Complete(_input, frag);
+            return Result::Complete(_input, String::from_utf8_lossy(&frag).into_owned());
         } else {
             // we accumulate this character.
-            frag.push(c as char);
+            frag.push(c);
             escape = false; // reset our escaping sentinel
         }
     }
